@@ -69,6 +69,8 @@ func init() {
 }
 
 func runC17(c *Ctx, r *Report) {
+	r.Rule("C17/loopvar-escapes", "no range variable of the platform package is referred to after its iteration (on-open and on-close hooks built in a loop would all run the last row's steps)", 1)
+	checkLoopVarEscapes(c, r, "C17/loopvar-escapes", nil)
 	importFoundation(c, r, "C17", "interactive")
 	r.Rule("C17/always-fetches-prompt", "AcquirePriv reports success only after it fetched the device's prompt (every level stays reachable whatever the device did in between)", 1)
 	checkAcquireAlwaysFetchesPrompt(c, r, "C17/always-fetches-prompt")
